@@ -93,6 +93,10 @@ EXPLANATION += (
     " Round 15: the genes handed to downsample_genes in assemble_query_data come from the parent's own cache entry (R-PROV/genes-of-this-parent)."
 )
 
+EXPLANATION += (
+    " Round 18: the reconciliation rejects only for a parent of the run's tree that lacks markers (R-MUST/rejects-only-missing-parent, rule of C01)."
+)
+
 RULE_TEXT = (
     "one obligation per consumer of the tree, per reducer call, per "
     "drop_level(<config>) call site, per flatten rebinding")
@@ -121,6 +125,10 @@ def check(ctx):
     check_validator_keys_maintained(ctx)
     check_election_order_by_name(ctx)
     check_genes_of_this_parent(ctx)
+    # a marker table that holds more than the reduced tree is not a
+    # reason to refuse the run (rule of C01)
+    from .C01 import check_reconcile_one_sided
+    check_reconcile_one_sided(ctx)
     # the level that was dropped is filled in from the finer assignment by
     # the parent table of *that* level (shared with C01)
     from .C01 import check_backfill
